@@ -96,7 +96,7 @@ def main(argv=None):
         shards = mod.plan(tier, args.seed)
 
     results = []
-    with tempfile.TemporaryDirectory(prefix=f"verif_{pid}_", dir=os.path.join(VERIF, ".build")) as tmpdir:
+    with tempfile.TemporaryDirectory(prefix=f"verif_{pid}_", dir=overlay.BUILD) as tmpdir:
         with concurrent.futures.ThreadPoolExecutor(max_workers=args.jobs) as ex:
             futs = [ex.submit(run_shard_subprocess, mod, s, i, tmpdir) for i, s in enumerate(shards)]
             for fu in concurrent.futures.as_completed(futs):
